@@ -233,7 +233,7 @@ theorem apply_values (mt : Match) (hwf : MatchWF mt) (vals : List Value) (hlen :
       · simp [applyLoop_eq]
 
 /-- for at least one measurement the returned flag says whether any measurement remains -/
-theorem apply_flag (mt : Match) (hwf : MatchWF mt) (vals : List Value) (hlen : vals.length = mt.n)
+theorem apply_flag (mt : Match) (_hwf : MatchWF mt) (vals : List Value) (hlen : vals.length = mt.n)
     (hpos : 0 < mt.n) : (mt.apply vals).2 = !(mt.apply vals).1.isEmpty := by
   unfold Match.apply
   split
